@@ -403,6 +403,17 @@ def annotation_of(env: "TypeEnv", e: ast.AST, depth: int = 0) -> Optional[ast.AS
                 defs.append(x.value)
         if len(defs) == 1:
             return annotation_of(env, defs[0], depth + 1)
+        if len(defs) > 1:
+            # several definitions (e.g. the two arms of an if/else): the declared type of the
+            # non-None ones, made Optional when one arm assigns None
+            none = [d for d in defs if isinstance(d, ast.Constant) and d.value is None]
+            anns = [annotation_of(env, d, depth + 1) for d in defs if d not in none]
+            anns = [a for a in anns if a is not None]
+            if anns and all(ast.unparse(a) == ast.unparse(anns[0]) for a in anns):
+                a = anns[0]
+                if none and not is_optional_value_annotation(a):
+                    return ast.Subscript(ast.Name("Optional", ast.Load()), a, ast.Load())
+                return a
         return None
     if isinstance(e, ast.Attribute):
         for ci in classes_of(env.type_of(e.value)):
